@@ -9,14 +9,14 @@ CONSTANTS InitCap,      \* MAX_INITIAL_RTR_ADVERT_INTERVAL (16 s)
 \* time.Duration.Round(time.Second) for non-negative values: half away from zero
 RoundSec(x) == ((x + Sec \div 2) \div Sec) * Sec
 
-\* d is an acceptable wait before request number i+1 (i = 0, 1, ...): a whole,
-\* positive number of seconds within [Min, Max] to one-second granularity; the
-\* first InitCount waits are additionally capped at InitCap (the cap applies to
-\* the chosen value, so a minimum above InitCap does not forbid InitCap itself)
+\* d is an acceptable wait before request number i+1 (i = 0, 1, ...): positive and, to one-second granularity (the
+\* statement's own words: d is compared after rounding to a whole second, so an implementation that drew sub-second
+\* waits would not be rejected for that alone), within [Min, Max]; the first InitCount waits are additionally capped at
+\* InitCap (the cap applies to the chosen value, so a minimum above InitCap does not forbid InitCap itself)
 AllowedWait(i, mn, mx, d) ==
-  LET lo == RoundSec(mn) hi == RoundSec(mx) IN
-  /\ d > 0 /\ d % Sec = 0
+  LET lo == RoundSec(mn) hi == RoundSec(mx) dd == RoundSec(d) IN
+  /\ d > 0
   /\ IF i < InitCount
-     THEN (lo <= d /\ d <= hi /\ d <= InitCap) \/ (d = InitCap /\ hi > InitCap)
-     ELSE lo <= d /\ d <= hi
+     THEN (lo <= dd /\ dd <= hi /\ dd <= InitCap) \/ (dd = InitCap /\ hi > InitCap)
+     ELSE lo <= dd /\ dd <= hi
 =============================================================================
